@@ -84,6 +84,8 @@ type Run struct {
 	Keys       map[string][]InputVal
 	Truncated  bool
 	Wall       time.Duration
+	DiffEvery   int
+	DiffSamples []DiffSample
 	PassModels [][]InputVal // sample of passing paths for native cross-replay
 	PassObs    []map[string]string
 }
@@ -441,6 +443,9 @@ func (r *Run) Explore() {
 			var sol *Solver
 			defer func() {
 				if sol != nil {
+					r.mu.Lock()
+					r.DiffSamples = append(r.DiffSamples, sol.Samples...)
+					r.mu.Unlock()
 					sol.Close()
 				}
 			}()
@@ -460,6 +465,7 @@ func (r *Run) Explore() {
 				r.mu.Unlock()
 				if sol == nil {
 					sol = NewSolver()
+					sol.SampleEvery = r.DiffEvery
 				}
 				q0, d0 := sol.Queries, sol.Dur
 				res, pend := r.runPath(sol, item)
